@@ -434,6 +434,10 @@ func getHorizontalTileIdOnPoint(lon float64, lat float64, hZoom int64) string {
 
 	// 経度方向のインデックスの計算
 	lonIndex := math.Floor(math.Pow(2, float64(hZoom)) * ((lon + 180.0) / 360.0))
+	if maxIndex := math.Pow(2, float64(hZoom)) - 1; lonIndex > maxIndex {
+		// 180度直前の経度は丸め誤差により範囲外のインデックスとなるため、最大インデックスに補正する
+		lonIndex = maxIndex
+	}
 
 	// 緯度をラジアンに変換
 	latRadian := common.DegreeToRadian(lat)
